@@ -23,6 +23,11 @@ pub enum Fault {
     MoveLines { file: String, line: usize, n: usize, to: usize },
     InsertLines { file: String, at: usize, text: String, what: String },
     ReplaceLines { file: String, line: usize, n: usize, text: String },
+    /// Replace `len` characters at `at` by `text` (an identifier or literal swapped for another one).
+    ReplaceRange { file: String, at: usize, len: usize, text: String, what: String },
+    /// A formatter or editor re-flowed the file half-way: the spaces at these character offsets
+    /// became line breaks followed by `indent` spaces.
+    Reflow { file: String, positions: Vec<usize>, indent: usize },
     Empty { file: String },
     Crlf { file: String },
     /// The reader reports the file as missing.
@@ -56,6 +61,11 @@ impl Fault {
                 _ => "F9-insert-foreign-lines",
             },
             Fault::ReplaceLines { .. } => "F12-token-soup",
+            Fault::ReplaceRange { what, .. } => match what.as_str() {
+                "literal" => "F17-swap-literal",
+                _ => "F16-rename-identifier",
+            },
+            Fault::Reflow { .. } => "F18-reflow",
             Fault::Empty { .. } => "F13-empty",
             Fault::Crlf { .. } => "F14-crlf",
             Fault::Remove { .. } => "R1-missing-file",
@@ -75,6 +85,8 @@ impl Fault {
             | Fault::MoveLines { file, .. }
             | Fault::InsertLines { file, .. }
             | Fault::ReplaceLines { file, .. }
+            | Fault::ReplaceRange { file, .. }
+            | Fault::Reflow { file, .. }
             | Fault::Empty { file }
             | Fault::Crlf { file }
             | Fault::Remove { file }
@@ -106,6 +118,15 @@ impl Fault {
             Fault::InsertLines { at, text, .. } => {
                 o.put("at", J::u(*at as u64));
                 o.put("text", J::s(text));
+            }
+            Fault::ReplaceRange { at, len, text, .. } => {
+                o.put("at", J::u(*at as u64));
+                o.put("len", J::u(*len as u64));
+                o.put("text", J::s(text));
+            }
+            Fault::Reflow { positions, indent, .. } => {
+                o.put("positions", J::Arr(positions.iter().map(|p| J::u(*p as u64)).collect()));
+                o.put("indent", J::u(*indent as u64));
             }
             Fault::ReplaceLines { line, n, text, .. } => {
                 o.put("line", J::u(*line as u64));
@@ -190,6 +211,9 @@ pub struct Concrete {
     /// Paths for which the reader returns an I/O error.
     pub io_errors: Vec<String>,
     pub main: String,
+    /// How the main file is named on the command line: "absolute" | "bare" (cwd = its directory) |
+    /// "dot-slash" | "relative-dir" (cwd = the parent of its directory).
+    pub main_spelling: String,
     pub no_std: bool,
     pub require: Option<String>,
     pub hash_seed: u64,
@@ -203,6 +227,7 @@ impl Concrete {
             files: BTreeMap::new(),
             io_errors: Vec::new(),
             main: main.to_string(),
+            main_spelling: "absolute".to_string(),
             no_std: false,
             require: None,
             hash_seed: 0,
@@ -224,6 +249,7 @@ impl Concrete {
             .set("files", files)
             .set("io_errors", crate::json::arr_str(self.io_errors.iter()))
             .set("main", J::s(&self.main))
+            .set("main_spelling", J::s(&self.main_spelling))
             .set("no_std", J::Bool(self.no_std))
             .set("require", self.require.as_ref().map(|s| J::s(s)).unwrap_or(J::Null))
             .set("hash_seed", J::u(self.hash_seed))
@@ -241,6 +267,9 @@ impl Concrete {
         }
         if let Some(a) = j.get("io_errors").and_then(|a| a.as_arr()) {
             c.io_errors = a.iter().filter_map(|x| x.as_str().map(|s| s.to_string())).collect();
+        }
+        if let Some(sp) = j.get("main_spelling").and_then(|x| x.as_str()) {
+            c.main_spelling = sp.to_string();
         }
         c.no_std = j.bool_of("no_std");
         c.require = j.get("require").and_then(|r| r.as_str()).map(|s| s.to_string());
